@@ -128,7 +128,8 @@ def quantitative_filter(
     prefered_order = ranks.index
 
     # computing correlation between features
-    X_corr = X[prefered_order].corr(corr_measure).abs()
+    # (clipped: rounding may take a perfect correlation slightly above its maximum of 1)
+    X_corr = X[prefered_order].corr(corr_measure).abs().clip(upper=1)
     X_corr = X_corr.where(triu(ones(X_corr.shape), k=1).astype(bool))
 
     # initiating list of maximum association per feature
